@@ -397,7 +397,9 @@ def run_T(desc, ctx):
             ctx.count("T_members", 0)
         # CLI
         if all("fcst" in i["has"] for i in ds["inputs"]):
-            argv = paths + ["-T", str(h), "-m", "mae", "-Tx", tx, "-type", "csv", "-Tagg", agg, "-x", "leadtime"]
+            groups_ = [["-T", str(h)], ["-m", "mae"], ["-Tx", tx], ["-type", "csv"], ["-Tagg", agg], ["-x", "leadtime"]]
+            rng.shuffle(groups_)          # the options in any order (-Tagg / -Tx before or after -T)
+            argv = paths + [x_ for g_ in groups_ for x_ in g_]
             o = runner.run_cli(argv)
             if o.status != "ok":
                 ctx.violation("T-cli-failed", str(o.brief()), case)
